@@ -94,9 +94,23 @@ func runC10(c *runCtx) {
 		for i := 0; i < ns; i++ {
 			ms = append(ms, sibling())
 		}
-		mode := r.Intn(10)
+		mode := r.Intn(11)
 		pos := -1
 		switch {
+		case mode == 10: // the deciding key occurs twice: once with an accepted value, once with another one, in either order
+			d := deciders[r.Intn(len(deciders))]
+			var other []member
+			for _, nm := range nearMiss {
+				if nm.k == d.k {
+					other = append(other, nm)
+				}
+			}
+			other = append(other, member{d.k, scalars[r.Intn(len(scalars))]}, member{d.k, `"other"`}, member{d.k, `{}`})
+			o := other[r.Intn(len(other))]
+			p1 := r.Intn(len(ms) + 1)
+			ms = append(ms[:p1], append([]member{d}, ms[p1:]...)...)
+			p2 := r.Intn(len(ms) + 1)
+			ms = append(ms[:p2], append([]member{o}, ms[p2:]...)...)
 		case mode < 6: // one deciding member at a random position
 			pos = r.Intn(len(ms) + 1)
 			d := deciders[r.Intn(len(deciders))]
